@@ -44,7 +44,7 @@ Theorem C05_cumulative op skip_na gk vals ng m :
   filter_by m (cumulative o op skip_na gk vals ng (Some m))
   = cumulative o op skip_na (filter_by m gk) (filter_by m vals) ng None.
 Proof.
-  exact (mask_is_filter _ _ _ (cum_init o op, 0) (cum_step (reducer_of o (cum_reducer op skip_na))) (cum_na o op)
+  exact (mask_is_filter _ _ _ (cum_init o op, 0) (cum_step (reducer_of o (cum_reducer false op skip_na))) (cum_na o op)
            gk vals ng m (fun s v => eq_refl)).
 Qed.
 
